@@ -54,6 +54,19 @@ def tlc_jobs(ctx, quick):
                 exp('d0-%s-%s' % (sp, g), sp, 0, g, xs='full')           # every leaf: 64 points x 5 steps
             for g in LAWGROUPS + (['core'] if sp == 'pspace1' else []):
                 exp('d1-%s-%s' % (sp, g), sp, 1, g, xs='quick')          # every leaf x every rule: 16 points x 3 steps
+    # WEIGHTED power spaces (ProductSpace(X, 2, weighting=[1, 4] / 4.0 / [1/4, 1])): every leaf; one rule on top of
+    # the vector-field functionals (their point-wise norms carry the component weights)
+    for sp in fu.SPACES_W:
+        full = sp == 'wpowerA' or not quick
+        exp('d0-' + sp, sp, 0, 'all' if full else 'vf', xs='quick' if quick else 'full')
+        if full:
+            exp('d1-' + sp, sp, 1, 'vf', xs='tiny' if quick else 'quick')
+            jobs.append(('impl-' + sp, 'MC_FuncRulesImpl.tla', 'MC_FuncRulesImpl_Prox.cfg',
+                         fu.fm_env(sp, 1, 'vf', 'prox', xset='quick'), 1))
+        if full or sp == 'wpowerQ':
+            jobs.append(('laws-%s-vf' % sp, M, 'MC_FuncMachine_lawsProx.cfg', fu.fm_env(sp, 0, 'vf', 'prox', xset='quick'), 1))
+    if not quick:
+        exp('big-wpower2', 'wpower2', 0, 'vf', xs='quick')
     # sanity laws of the reference
     # (quick: every leaf on three spaces; thorough: every leaf on every space, every leaf x rule on one weighted space)
     lawspaces = ['rn2', 'discr2', 'power1'] if quick else fu.SPACES_2D
@@ -226,7 +239,10 @@ def mkf(op, s=0, c=0, v=(), u=(), args=()):
 def driver_spaces():
     H = Fraction(1, 2)
     return [('rn', 1, 3, [1] * 3), ('rnw', 1, 4, [4] * 4), ('discr', 1, 3, [2] * 3), ('discr', 1, 6, [H] * 6),
-            ('power', 2, 2, [H] * 4), ('power', 3, 2, [2] * 6), ('power', 2, 4, [2] * 8), ('pspace', 2, 2, [4, 4, H, H])]
+            ('power', 2, 2, [H] * 4), ('power', 3, 2, [2] * 6), ('power', 2, 4, [2] * 8), ('pspace', 2, 2, [4, 4, H, H]),
+            # weighted power spaces (kind, m, n, W, component weights): array weighting, constant weighting, 3 components
+            ('wpower', 2, 2, [H, H, 2, 2], [1, 4]), ('wpower', 2, 3, [6] * 6, [3, 3]),
+            ('wpower', 3, 2, [H, H, 1, 1, 2, 2], [Fraction(1, 4), H, 1])]
 
 
 def driver_leaves(kind, m, N, rnd):
@@ -240,8 +256,11 @@ def driver_leaves(kind, m, N, rnd):
          mkf('Huber', 0), mkf('IndBox', 1, 1), mkf('IndBox', 0, 0), mkf('IndZero', 0, -2)]
     if m == 1:
         L += [mkf('Linf'), mkf('IndBall1'), mkf('IndSum', 1), mkf('IndSum', (5, 2)), mkf('IndSum', 0), mkf('IndSum', -2), mkf('IndSimplex', 2), mkf('IndSimplex', 1)]
-    if kind == 'power':
+    if fu.is_vf(kind):
         L += [mkf('GroupL1'), mkf('IndGroupBall'), mkf('GroupL1', 1), dict(mkf('IndGroupBall'), s=[1, 0])]
+    if kind == 'wpower':
+        # the functionals whose implementation meets the weighting of the product space
+        L = [l for l in L if l['op'] in ('L1', 'L2', 'L2sq', 'Huber', 'IndBall2', 'IndBallInf', 'GroupL1', 'IndGroupBall')]
     if kind == 'pspace':
         n = N // 2
         parts = [mkf('L1'), mkf('L2sq'), mkf('L2'), mkf('IndBox', -1, 2), mkf('Huber', (1, 2))]
@@ -321,7 +340,7 @@ def factory_programs(kind, m, N):
             out.append(('proximal_convex_conj_l1', mkf('Conj', args=[wrap(mkf('L1'))])))
             out.append(('proximal_convex_conj_l2', mkf('Conj', args=[wrap(mkf('L2'))])))
             out.append(('proximal_convex_conj_l2_squared', mkf('Conj', args=[wrap(mkf('L2sq'))])))
-            if kind == 'power':
+            if fu.is_vf(kind):
                 out.append(('proximal_l1_l2', wrap(mkf('GroupL1'))))
                 out.append(('proximal_convex_conj_l1_l2', mkf('Conj', args=[wrap(mkf('GroupL1'))])))
         if kind != 'pspace':
@@ -418,8 +437,8 @@ def driver_program(arg):
     """All events of one driver program (worker)."""
     spd, f, seed, nrand = arg[:4]
     fname = arg[4] if len(arg) > 4 else None
-    kind, m, n, W = spd
-    sp = fu.sp_desc(kind, m, n, W)
+    kind, m, n, W = spd[:4]
+    sp = fu.sp_desc(*spd)
     N = m * n
     rnd = _rnd(json.dumps(f, sort_keys=True) + kind + str(N), seed)
     res = {'events': [], 'viol': [], 'counts': [], 'classes': set(), 'noprox': 0}
@@ -476,7 +495,7 @@ def driver_args(seed, quick):
     dargs = []
     drnd = random.Random(seed * 7919 + 7)
     for spd in driver_spaces():
-        kind, m, n, W = spd
+        kind, m, n, W = spd[:4]
         N = m * n
         for leaf in driver_leaves(kind, m, N, drnd):
             rules = driver_rules(N, drnd)
@@ -488,7 +507,7 @@ def driver_args(seed, quick):
                     continue           # the reference point of a Bregman distance must lie in dom f
                 dargs.append((spd, prog, seed, 2 if quick else 8))
         for fname, prog in factory_programs(kind, m, N):
-            if kind in ('rn', 'discr', 'power') and (not quick or n <= 3):
+            if kind in ('rn', 'discr', 'power', 'wpower') and (not quick or n <= 3):
                 dargs.append((spd, prog, seed, 2 if quick else 8, fname))
     return dargs
 
@@ -500,10 +519,12 @@ def run(ctx):
                 'real ODL functionals: ' +
                 ('every catalogue leaf on each of 6 space kinds x 16 points x steps {1/2, 5/2, per-component}; one rule on top '
                  'of the leaf group assigned to each space (rotation table ROT: every (leaf, rule) pair on one space); two '
-                 'rules on top of L1 on rn' if quick else
+                 'rules on top of L1 on rn; weighted power spaces ProductSpace(X, 2, weighting=[1,4] / 4.0 / [1/4,1]) with every leaf '
+                 '/ the vector-field functionals and one rule on top of them' if quick else
                  'every catalogue leaf on each of 6 space kinds x 64 points x steps {1/2, 1, 2, 5/2, per-component}; every '
                  '(leaf, rule) pair on every space x 16 points; two rules on two cores of 4 leaves on 3 spaces; 3- and '
-                 '4-entry spaces (rn3, discr3, power2, pspace2)') +
+                 '4-entry spaces (rn3, discr3, power2, pspace2, wpower2); weighted power spaces (array / constant / below-one '
+                 'component weights) with every leaf and every (vector-field leaf, rule) pair') +
                 '; plus a deterministic enumeration on larger spaces (incl. every closed-form factory with lam / g / per-point '
                 'step options and functionals outside the catalogue) and seeded random inputs, all validated by TLC; '
                 'distinct = hash of (program, space, sigma, x); non-trivial = the certified prox differs from x and from 0')
@@ -511,6 +532,9 @@ def run(ctx):
         'steps sigma in {1/2, 1, 2, 5/2} (scalar) and one per-component step where the documentation allows it',
         'inputs and parameters on the quarter lattice; observations snapped to multiples of 1/240 with tolerance 2^-36',
         'the alarm uses f as implemented and the norm of f.domain (e.g. the L-infinity functional is the un-weighted max, as documented)',
+        'on a weighted power space the point-wise norms of GroupL1Norm / IndicatorGroupL1UnitBall / Huber carry the component '
+        'weights (PointwiseNorm takes them from domain.weighting, as documented); FunctionalQuadraticPerturb is enumerated over '
+        '{coefficient 0 / >0} x {linear term absent / explicit zero / nonzero} x {constant 0 / !=0} directly on every leaf',
         'slack 2^-12 on F: a lattice-step error of the proximal point costs at least 1/160 by strong convexity',
         'cases whose true proximal point is not on the search lattice are dropped at export (counted) but still probed']
     import time
